@@ -729,6 +729,15 @@ func (l *ShardedMap[K, V]) TraverseMap(f func(LockedMap[K, V]) bool) bool {
 }
 
 func (l *ShardedMap[K, V]) Len() int {
+	l.l.RLock()
+	defer l.l.RUnlock()
+
+	if len(l.sharded) < 1 {
+		// NOTE closed; the late length update of the running operation
+		// should be ignored.
+		return 0
+	}
+
 	return int(atomic.LoadInt64(&l.length))
 }
 
